@@ -80,7 +80,7 @@ fn ks_definitional(ctx: &mut Ctx, fl: Flavor) {
             ctx.rc.d(&mut blk);
             (blk, c)
         } else {
-            wl::iv(&mut ctx.rng, 16)
+            mode_iv(ctx, 16)
         }
     } else {
         stream_iv(ctx, fl, b)
@@ -140,6 +140,45 @@ fn ks_definitional(ctx: &mut Ctx, fl: Flavor) {
             }
         };
         ctor_evs = ctx.take_log();
+        // optional history before the measured run: consume some keystream, continue on a
+        // clone, seek (back) to the start block -- block i must still be E(layout(IV, i))
+        if d.cloneable && ctx.rng.chance(1, 4) {
+            let warm = ctx.rng.range(1, 6 * b);
+            let z = vec![0u8; warm];
+            let mut o = vec![0u8; warm];
+            let start_bytes = i0.checked_mul(b as u128);
+            let r = guard(|| {
+                if !obj.try_apply(Form::B2b, &z, &mut o) {
+                    return None;
+                }
+                let mut c = obj.clone_box()?;
+                match start_bytes {
+                    Some(p) => {
+                        if c.try_seek(SeekTy::U128, p) != Some(true) {
+                            return None;
+                        }
+                    }
+                    None => return None,
+                }
+                Some(c)
+            });
+            match r {
+                Ok(Some(c)) => {
+                    obj = c;
+                    ctx.note("prefix", J::s(format!("apply({}); clone; seek(block {}) on the clone", warm, i0)));
+                    ctx.st.count(&format!("clone-seek-prefix.{}", fl.name()));
+                }
+                Ok(None) => {
+                    // position not expressible as u128 bytes (or not seekable): rebuild
+                    obj = if far { (d.mk_at.unwrap())(&key, &iv, i0) } else { (d.mk)(Ctor::New, &key, &iv).unwrap() };
+                }
+                Err(p) => {
+                    spy::log_stop();
+                    return ctx.panic_violation(&format!("{}/prefix", name), &p);
+                }
+            }
+            let _ = ctx.take_log();
+        }
         ctx.note("start_block", J::s(i0.to_string()));
         let (sched, _) = wl::byte_schedule(&mut ctx.rng, len, b);
         ctx.note("data", J::s(hex_short(&data)));
